@@ -133,6 +133,19 @@ def stepMore (s : St) (line : String) : St × String :=
       | .oob _ => (s, "oob")
       | .ok _ => (s, "ok")
     | none => (s, "bad-op")
+  | "excl.probe" :: args =>
+    let kind := (kv args "kind").getD "none"
+    match unhex ((kv args "content").getD "-") with
+    | some content =>
+      let node? : Option FsNode := if kind == "regular" then some (.regular content) else if kind == "dangling" then some .danglingSymlink else none
+      let w : FsWorld := { nodes := match node? with | some n => [("p", n)] | none => [] }
+      let r := writerInitPath w "p"
+      if r.1 then (s, "ok")
+      else match r.2.lookup "p" with
+        | some (.regular c) => (s, "null " ++ hex c)
+        | some .danglingSymlink => (s, "null dangling")
+        | none => (s, "null")
+    | none => (s, "bad-op")
   | ["r.close", iid] =>
     match iid.toNat? with
     | some i => ({ s with riters := s.riters.erase i }, "ok")
